@@ -141,6 +141,25 @@ pub fn observe(a: &BinArchive) -> Obs {
             }
         }
     }
+    // the other label accessors must agree with all_labels: get_labels lists the same pairs
+    // (sorted by address, then name), find_label_address returns an address carrying the name
+    let mut flat: Vec<(usize, String)> = o.labels.iter().flat_map(|(a, v)| v.iter().map(move |n| (*a, n.clone()))).collect();
+    flat.sort();
+    let mut got = a.get_labels();
+    got.sort();
+    if got != flat {
+        o.anomalies.push(format!("get_labels() = {:?} disagrees with all_labels {:?}", got, flat));
+    }
+    let names: BTreeSet<&String> = o.labels.values().flatten().collect();
+    for n in names {
+        match a.find_label_address(n) {
+            Some(addr) if o.labels.get(&addr).map(|v| v.contains(n)).unwrap_or(false) => {}
+            other => o.anomalies.push(format!("find_label_address({:?}) = {:?} but the label sits on {:?}", n, other, o.labels.iter().filter(|(_, v)| v.contains(n)).map(|(a, _)| *a).collect::<Vec<_>>())),
+        }
+    }
+    if let Some(addr) = a.find_label_address("\u{1}no such label") {
+        o.anomalies.push(format!("find_label_address of an absent label returned {}", addr));
+    }
     o.dests = a.pointer_destinations().into_iter().collect();
     o
 }
